@@ -21,7 +21,7 @@ TECHNIQUE = ('model checking: bounded-exhaustive enumeration of all zero-weight 
              'interpolation-weight oracle and metamorphic scalings')
 LEVEL_TEXT = ('every one of the 2^14 (and 2^12 with all four aesthetics methods) zero-weight patterns of a 14- (12-) pixel '
               'spectrum on 7 output grids, every single bad run (start x length<=12) and every pair of bad runs from a 48-run '
-              'menu on 2-3 stacked 128-pixel exposures, and a Gaussian feature at 10 positions x 3 redshifts (1 and 2 objects) '
+              'menu on 2-3 stacked 128-pixel exposures (same and different wavelength coverage), and a Gaussian feature at 10 positions x 3 redshifts (1 and 2 objects) '
               'were executed on the real combine1fiber / preprocess_spectra and compared with an independent oracle')
 LEVEL_NOTE = ('holds only for the enumerated uniform log-wavelength grids, the three noise-free flux shapes (constant, linear, '
               'slow sine) and two ivar levels; nothing is claimed for noisy data (where the 5-sigma rejection acts), for '
@@ -30,7 +30,9 @@ LEVEL_NOTE = ('holds only for the enumerated uniform log-wavelength grids, the t
 RULE = ('1-D: input pixel i at loglam c0+1e-4*i; a case = (n, zero-weight bit pattern, output grid from {same, +0.5 px, +0.3 px, '
         'wider by 5, narrower by 3, 2x coarser, disjoint}, flux shape, ivar shape or none, aesthetics method, scaling on/off); '
         'all patterns are enumerated for each menu combination. 2-D: (number of exposures, pixel offsets, list of bad runs '
-        '(exposure, start, length), flux shape, grid). preprocess: (objects, redshifts, feature position, 1-D/2-D loglam, own/given output grid). '
+        '(exposure, start, length), flux shape, grid); stacks whose exposures cover different ranges (exposure e shifted by e*D '
+        'pixels, D in {24, 40, 100}, plus half a pixel for odd e) x bad runs x ivar shape {constant, ramp, non-monotone} x output '
+        'grid {each exposure grid, +0.3 px, wider}. preprocess: (objects, redshifts, feature position, 1-D/2-D loglam, own/given output grid). '
         'Non-trivial = at least one good input pixel and at least one output pixel inside the input range (1-D/2-D), every '
         'preprocess case. Distinct = distinct case tuples.')
 ASSUMPTIONS = [
@@ -45,6 +47,9 @@ ASSUMPTIONS = [
     'a constant spectrum stays constant is demanded wherever the output ivar is > 0 (1e-4 relative)',
     'scaling uses c = 4 (exact in binary floating point); outputs are compared to 1e-9 relative',
     'flux shapes and ivar levels keep the spline misfit far below 1 sigma so the 5-sigma rejection in iterfit never fires',
+    'stacked exposures with different coverage: where exactly one exposure has data the single-spectrum clauses are applied to '
+    'that exposure (non-zero ivar = linear interpolation of that exposure ivar, <= its larger neighbour); the zero rule uses '
+    'the most permissive reading across exposures',
     'stacked exposures have 128 pixels and at most 24 bad ones, so >= 101 good pixels each as the variance smoothing assumes',
     'without objivar only shape, finiteness, ivar >= 0, the zero rule outside the input range and the constant/identity clauses are checked',
     'preprocess_spectra: the feature position is the output pixel of maximum flux among pixels with ivar > 0; "moves to '
@@ -333,6 +338,91 @@ def check_c2(case):
     return bad, lab
 
 
+# ------------------------------------------------------------------------------------------------ 2-D, different coverage
+def ivar3(name, e, npx):
+    i = np.arange(npx, dtype=float)
+    if name == 'const':
+        return np.full(npx, [4.0, 2.0, 1.0][e])
+    if name == 'ramp':
+        return [4.0, 2.0, 1.0][e] + [0.01, 0.02, 0.005][e] * i
+    return [4.0 + 0.5 * (i % 2), 2.0 + 0.25 * (i % 3), 1.0 + 0.125 * (i % 2)][e]      # 'saw': not monotone
+
+
+def check_c3(case):
+    """Stacked exposures that cover different wavelength ranges: exposure e occupies k = i + e*D (+ frac for odd e)."""
+    ensure_maskbits()
+    from pydl.pydlspec2d.spec2d import combine1fiber
+    E = 'combine1fiber2d'
+    nexp, D, npx = case['nexp'], case['D'], NPIX2
+    offs = [float(e * D) + (case['frac'] if e % 2 else 0.0) for e in range(nexp)]
+    kk = np.arange(npx, dtype=float)
+    K = np.array([kk + o for o in offs])
+    F = fluxf(case['flux'], K)
+    I = np.array([ivar3(case['ivar'], e, npx) for e in range(nexp)])
+    for e, s, ln in case['runs']:
+        I[e, s:s + ln] = 0.0
+    I0 = I.copy()
+    good = [[bool(v > 0) for v in I0[e]] for e in range(nexp)]
+    kmax = int(offs[-1]) + npx - 1
+    g = case['grid']
+    if g.startswith('exp'):
+        gk = [i + offs[int(g[3:])] for i in range(npx)]
+    elif g == 'third':
+        gk = [i + 0.3 for i in range(kmax + 1)]
+    else:
+        gk = [float(i) for i in range(-5, kmax + 6)]
+    try:
+        nf, ni = combine1fiber(lam(K), F.copy(), lam(gk), objivar=I, aesthetics=case['aes'])
+    except Exception as e:
+        return [(exc_sig(E, e, False), repr(e)[:300])], 'raises-' + type(e).__name__
+    bad = []
+    if not basic_checks(E, nf, ni, len(gk), case['aes'], bad):
+        return bad, 'malformed'
+    nf = np.asarray(nf, dtype=float)
+    ni = np.asarray(ni, dtype=float)
+    seen = set()
+
+    def add(sig, msg):
+        if sig not in seen:
+            seen.add(sig)
+            bad.append((sig, msg))
+    trig = ':nonmonotone-ivar' if case['ivar'] == 'saw' else ''
+    ftrue = fluxf(case['flux'], gk)
+    nsingle = nforced = nlive = 0
+    for j, k in enumerate(gk):
+        cover = [e for e in range(nexp) if 0 <= k - offs[e] <= npx - 1]
+        allowed = any(may_have_weight(k - offs[e], good[e]) for e in cover)
+        if not allowed:
+            nforced += 1
+            if ni[j] != 0:
+                add('%s:ivar-nonzero:%s' % (E, 'in-or-next-to-bad-run' if cover else 'outside-input-range'),
+                    'output pixel %d (k=%g, covered by exposures %s) has ivar %r; offsets %s runs %s' % (j, k, cover, ni[j], offs, case['runs']))
+            continue
+        if len(cover) == 1 and ni[j] != 0:
+            # only one exposure has data here: the single-spectrum clauses apply to it
+            e = cover[0]
+            nsingle += 1
+            kl = k - offs[e]
+            exp = float(np.interp(kl, kk, I0[e]))
+            i0, i1 = int(math.floor(kl)), int(math.ceil(kl))
+            if abs(ni[j] - exp) > 1e-9 * abs(exp):
+                add(E + ':single-coverage:ivar-not-interpolated' + trig,
+                    'output pixel %d (k=%g) lies in exposure %d only: ivar %r, interpolated input %r' % (j, k, e, ni[j], exp))
+            if ni[j] > max(I0[e][i0], I0[e][i1]) * (1 + 1e-12):
+                add(E + ':single-coverage:ivar-above-local-max' + trig,
+                    'output pixel %d (k=%g) lies in exposure %d only: ivar %r > max(%r, %r)' % (j, k, e, ni[j], I0[e][i0], I0[e][i1]))
+        if ni[j] > 0 and case['flux'] == 'const' and abs(nf[j] - 10.0) > FTOL * 10.0:
+            add(E + ':constant-not-constant', 'output pixel %d (k=%g) flux %r' % (j, k, nf[j]))
+        if all(clean(k - offs[e], good[e]) or k - offs[e] < -6 or k - offs[e] > npx + 5 for e in range(nexp)):
+            nlive += 1
+            if not ni[j] > 0:
+                add(E + ':reproduce:ivar-zero-in-clean-interior', 'output pixel %d (k=%g): every exposure good within 5 px or absent, ivar %r' % (j, k, ni[j]))
+            elif abs(nf[j] - ftrue[j]) > FTOL * abs(ftrue[j]):
+                add(E + ':reproduce:flux-in-clean-interior', 'output pixel %d (k=%g) flux %r expected %r' % (j, k, nf[j], ftrue[j]))
+    lab = 'cov:x%d:runs%d:forced%s:single%d:live%d' % (nexp, len(case['runs']), '0' if nforced == 0 else '+', min(nsingle, 1), min(nlive, 1))
+    return bad, lab
+
+
 # ------------------------------------------------------------------------------------------------ preprocess_spectra
 NPIXP = 60
 
@@ -389,7 +479,7 @@ def check_pp(case):
     return bad, 'obj%d:%s:%s' % (nobj, 'shifted' if any(z) else 'z0', 'given-grid' if case.get('newll') else 'own-grid')
 
 
-CHECKS = {'c1': check_c1, 'c2': check_c2, 'pp': check_pp}
+CHECKS = {'c1': check_c1, 'c2': check_c2, 'c3': check_c3, 'pp': check_pp}
 
 
 def check_case(case):
@@ -452,6 +542,25 @@ def tasks(tier):
                     t.append({'f': 'c2s', 'nexp': nexp, 'off': off, 'e': e, 'starts': RUN_STARTS, 'lens': [1, 4, 12], 'scale_every': 32})
                 else:
                     t.append({'f': 'c2s', 'nexp': nexp, 'off': off, 'e': e, 'starts': RUN_STARTS[::4], 'lens': [3], 'scale_every': 1000})
+    # 2-D, exposures with different wavelength coverage (each end covered by one exposure only)
+    if T:
+        for nexp, D in ((2, 24), (2, 40), (2, 100), (3, 40)):
+            for frac in (0.0, 0.5):
+                for e in range(nexp):
+                    t.append({'f': 'c3s', 'nexp': nexp, 'D': D, 'frac': frac, 'e': e, 'starts': list(range(0, 128, 4)), 'lens': [1, 3, 12],
+                              'ivars': ['ramp', 'saw'], 'grids': ['exp%d' % q for q in range(nexp)] + ['third', 'wider']})
+                t.append({'f': 'c3p', 'nexp': nexp, 'D': D, 'frac': frac, 'starts': [0, 20, 60, 90, 110, 125], 'lens': [1, 3],
+                          'ivars': ['const', 'ramp'], 'grids': ['third', 'wider']})
+    else:
+        for frac in (0.0, 0.5):
+            t.append({'f': 'c3s', 'nexp': 2, 'D': 40, 'frac': frac, 'e': 0, 'starts': [0, 20, 64, 100, 120], 'lens': [1, 3],
+                      'ivars': ['const', 'ramp'], 'grids': ['exp0', 'exp1', 'third', 'wider']})
+            t.append({'f': 'c3s', 'nexp': 2, 'D': 40, 'frac': frac, 'e': 1, 'starts': [0, 20, 64, 100, 120], 'lens': [1, 3],
+                      'ivars': ['const', 'ramp'], 'grids': ['exp0', 'exp1', 'third', 'wider']})
+        t.append({'f': 'c3s', 'nexp': 2, 'D': 100, 'frac': 0.5, 'e': 1, 'starts': [0, 64, 120], 'lens': [3],
+                  'ivars': ['ramp', 'saw'], 'grids': ['exp1', 'wider']})
+        t.append({'f': 'c3s', 'nexp': 3, 'D': 40, 'frac': 0.0, 'e': 2, 'starts': [0, 64, 120], 'lens': [3],
+                  'ivars': ['ramp'], 'grids': ['exp2', 'third', 'wider']})
     # 2-D pairs of runs
     if T:
         for off in ('zero', 'alt'):
@@ -539,6 +648,23 @@ def run_task(task):
                             continue
                     _do(acc, {'f': 'c2', 'nexp': task['nexp'], 'off': task['off'], 'runs': [first, second], 'flux': 'sine', 'grid': 'same',
                               'aes': 'traditional', 'scale': False}, True)
+    elif f == 'c3s':
+        runs_menu = [[]] if task['e'] == 0 else []          # the run-free stack once per configuration
+        runs_menu += [[[task['e'], s0, ln]] for s0 in task['starts'] for ln in task['lens'] if s0 + ln <= NPIX2]
+        for runs in runs_menu:
+            for ivn in task['ivars']:
+                for g in task['grids']:
+                    _do(acc, {'f': 'c3', 'nexp': task['nexp'], 'D': task['D'], 'frac': task['frac'], 'runs': runs, 'ivar': ivn,
+                              'flux': 'sine', 'grid': g, 'aes': 'traditional'}, True)
+    elif f == 'c3p':
+        menu = [[s0, ln] for s0 in task['starts'] for ln in task['lens'] if s0 + ln <= NPIX2]
+        for a in menu:
+            for b in menu:
+                for ivn in task['ivars']:
+                    for g in task['grids']:
+                        _do(acc, {'f': 'c3', 'nexp': task['nexp'], 'D': task['D'], 'frac': task['frac'],
+                                  'runs': [[0, a[0], a[1]], [task['nexp'] - 1, b[0], b[1]]], 'ivar': ivn, 'flux': 'const', 'grid': g,
+                                  'aes': 'mean'}, True)
     elif f == 'pp':
         if task['nobj'] == 1:
             for z in Z:
